@@ -46,7 +46,9 @@ impl Cx {
     }
     /// choose a count by tier, scaled down for sanitizer runs
     pub fn n(&self, quick: u64, thorough: u64) -> u64 {
-        let v = if self.quick() { quick } else { thorough };
+        // the quick budgets written in the property modules are multiplied by 6 (they were sized when
+        // the checks took well under a second; the quick tier still stays within a few seconds per check)
+        let v = if self.quick() { std::cmp::min(quick * 6, thorough) } else { thorough };
         std::cmp::max(1, v / self.scale_div)
     }
 }
@@ -86,6 +88,11 @@ fn main() {
     let threads: usize = arg_val(&args, "--threads").and_then(|s| s.parse().ok()).unwrap_or(8);
     let scale_div: u64 = arg_val(&args, "--scale-div").and_then(|s| s.parse().ok()).unwrap_or(1);
     let only_gen = arg_val(&args, "--only-gen");
+    // sanitizer / interpreter runs: visit only the keys congruent to `key_offset` modulo `key_stride`
+    // and stop a generator after a wall budget (best-effort layers; never used for verdict-bearing runs)
+    let key_stride: u64 = arg_val(&args, "--key-stride").and_then(|s| s.parse().ok()).unwrap_or(1).max(1);
+    let key_offset: u64 = arg_val(&args, "--key-offset").and_then(|s| s.parse().ok()).unwrap_or(0) % key_stride;
+    let gen_budget_ms: u128 = arg_val(&args, "--gen-budget-ms").and_then(|s| s.parse().ok()).unwrap_or(u128::MAX);
     let checked = cfg!(debug_assertions);
 
     let prop = match props::lookup(&pid) {
@@ -129,8 +136,12 @@ fn main() {
                             .stack_size(64 << 20)
                             .spawn_scoped(s, move || {
                                 let mut rep = Report::new();
-                                let mut k = shard as u64;
+                                let mut k = key_offset + shard as u64 * key_stride;
                                 while k < count {
+                                    if tg.elapsed().as_millis() > gen_budget_ms {
+                                        rep.count(&format!("gen.{}.budget-stop", name));
+                                        break;
+                                    }
                                     let before = rep.viol_sigs.len();
                                     // a panic escaping a monitor is a harness error, never a verdict
                                     let r = mon::guard(|| prop.run_key(cx, name, k, &mut rep));
@@ -138,7 +149,7 @@ fn main() {
                                         rep.notes.push(format!("HARNESS-PANIC gen={} key={} {}", name, k, p));
                                     }
                                     let _ = before;
-                                    k += nthreads as u64;
+                                    k += nthreads as u64 * key_stride;
                                 }
                                 rep
                             })
@@ -156,7 +167,7 @@ fn main() {
                 total.exhaustive.push(g.name.to_string());
             }
         }
-        if only_gen.is_none() {
+        if only_gen.is_none() && key_stride == 1 && gen_budget_ms == u128::MAX {
             prop.floors(&cx, &mut total);
         }
     }
